@@ -17,7 +17,7 @@ from .. import common, rt, corpus, gen_wide, tel, harvest
 
 PROP = 'C06'
 MODULES = ['Cnl2aspModel.Props.C06']
-THEOREMS = ['C06_value', 'C06_bounds', 'C06_core_safe', 'C06_rule_syntax', 'C06_program_syntax']
+THEOREMS = ['C06_value', 'C06_bounds', 'C06_core_safe', 'C06_rule_syntax', 'C06_program_syntax', 'C06_symbols_in_grammar']
 
 VAR_RE = re.compile(r'(?<![A-Za-z0-9_"])[A-Z][A-Z0-9_]*(?![A-Za-z0-9_"(])')
 
@@ -192,6 +192,9 @@ def main(tier):
     run.coverage['rule'] = ('unit: generated values x constant sets through the real convert_value vs the model; search: outputs of the wide and '
                             'temporal generators, the stress forms and the corpus, parsed by clingo.ast and grounded by clingo (telingo for programs '
                             'with temporal parts); non-trivial = distinct accepted specification')
+    ok, _tables, msg = common.run_tgen()       # the symbol tables of C06_symbols_in_grammar are regenerated from the current source
+    if not ok:
+        run.broke('tgen', 'extract_tables.py', msg)
     run.lean(MODULES, THEOREMS, extra_modules=['Cnl2aspModel.Compiler.Value', 'Cnl2aspModel.Cnl.Safety', 'Cnl2aspModel.Cnl.RefExecSound'])
     # ---- unit --------------------------------------------------------------
     from cnl2asp.converter.asp_converter import ASPConverter
